@@ -1327,7 +1327,7 @@ func histParams(thorough bool) []string {
 					add(spec{proto: "tcp", policy: pol, n: 1, k: k, depth: 1, alpha: "A4", hs: "small", fs: "small"})
 					add(spec{proto: "tcp", policy: pol, n: 3, k: k, depth: 1, alpha: "A3", hs: "small", fs: "small", conc: 1})
 				}
-				if k == 32 || k == 64 {
+				if k == retention(pol) {
 					add(spec{proto: "tcp", policy: pol, n: 3, k: k, depth: 2, alpha: "A4", hs: "none", fs: "small"})
 				}
 				// UDP groups (same generic selector, separate constructors)
